@@ -555,7 +555,7 @@ class Measurable:
                         matched = True
                     except NotFoundError:
                         continue
-                elif pop not in self.pop_names:
+                elif pop.name not in self.pop_names:
                     continue
                 else:
                     vars = pop.get_variable(self.measurable_name)  # If variable is missing and the pop was explicitly defined, raise the error
